@@ -43,6 +43,8 @@ SNIPPETS = [
     ("def f(a, b):\n    def pick(x, dflt=7):\n        return x if x is not None else dflt + b\n    return pick(a), pick(None), pick(None, 1)", [(1, 2), (None, 3)]),
     ("def f(a):\n    n = 0\n    def bump(k):\n        nonlocal n\n        n += k\n        return n\n    bump(a)\n    bump(2)\n    return n", [(1,), (5,)]),
     ("def f(a):\n    def g(x):\n        return x + 1\n    return g(a, 2)", [(1,)]),
+    ("def f(a):\n    return a in {1, 'x'}, a not in {2}", [(1,), ('x',), (2,), ([],), ({},)]),
+    ("def f(a, b):\n    if (n := len(a)) > b:\n        return n\n    return -n", [([1, 2], 1), ([1], 5)]),
     ("def f(xs, t):\n    i = 0\n    while i < len(xs):\n        if xs[i] == t:\n            break\n        i += 1\n    else:\n        return ('all', i)\n    return ('hit', i)", [([], 1), ([1, 2], 2), ([1, 2], 3), ([3], 3)]),
     ("def f(l):\n    return [x * 2 for x in l if x], {x: x for x in l}, any(x > 2 for x in l), all(x for x in l)", [([0, 1, 3],), ([],)]),
     ("def f(a, b):\n    return [x + y for x in a for y in b]", [([1, 2], [10, 20]), ([], [1])]),
